@@ -144,6 +144,8 @@ type FnExec struct {
 	guardN    map[string]int
 	guardSeen map[string]bool
 	callResults map[string]specVar
+	callArgs    map[string][]specVar
+	calledCell  map[string]int
 	entryFacts int
 }
 
@@ -850,12 +852,52 @@ func (e *FnExec) run() {
 	st.ctr = Var("ctr@0", "Int")
 	e.facts = append(e.facts, Lt(IntLit(0), st.ctr))
 	e.entry = st.clone()
+	e.initCalledGhosts(st)
+	e.initCallArgGhosts()
 	e.bindParams(st)
 	e.assumeRequires(st)
 	e.entryFacts = len(e.facts)
 	e.in[fn.Blocks[0]] = st
 	for _, b := range e.order {
 		e.execBlock(b)
+	}
+}
+
+// initCalledGhosts creates one boolean ghost cell per function name mentioned as called(name)
+// in the contract; it is false on entry and set by every call to a callee with that name.
+func (e *FnExec) initCalledGhosts(st *State) {
+	if e.con == nil {
+		return
+	}
+	var texts []string
+	for _, c := range e.con.Ensures {
+		texts = append(texts, c.Text)
+	}
+	for _, l := range e.con.Loops {
+		for _, c := range l.Invariants {
+			texts = append(texts, c.Text)
+		}
+	}
+	for _, t := range texts {
+		for {
+			i := strings.Index(t, "called(")
+			if i < 0 {
+				break
+			}
+			t = t[i+len("called("):]
+			j := strings.Index(t, ")")
+			if j < 0 {
+				break
+			}
+			name := strings.TrimSpace(t[:j])
+			if _, ok := e.calledCell[name]; !ok {
+				e.ncell++
+				e.calledCell[name] = e.ncell
+				e.cellType[e.ncell] = types.Typ[types.Bool]
+				e.cellName[e.ncell] = "called!" + name
+				st.cells[e.ncell] = False
+			}
+		}
 	}
 }
 
@@ -1042,6 +1084,16 @@ func (e *FnExec) enterLoop(li *loopInfo, in *State) *State {
 			nc := Fresh("ctr", "Int")
 			e.addFact(st, Le(st.ctr, nc))
 			st.ctr = nc
+		}
+	}
+	// implicit invariant of the range-over-slice lowering: the hidden index only counts up from -1
+	for _, ins := range li.header.Instrs {
+		if s, ok := ins.(*ssa.Store); ok {
+			if a, ok := s.Addr.(*ssa.Alloc); ok && a.Comment == "rangeindex" {
+				if id, ok := e.cellOf[a]; ok && st.cells[id] != nil {
+					e.addFact(st, Le(IntLit(-1), st.cells[id]))
+				}
+			}
 		}
 	}
 	for _, p := range hdrPhis {
